@@ -196,9 +196,9 @@ mod verif_entry {
         let d = Divan::default();
         run(&d, Action::Test, &ARGS_ENTRY, Some(&picked[..k]));
         let (n, seen) = unsafe { (crate::benchmark::verif_args::NSEEN, crate::benchmark::verif_args::SEEN) };
-        assert!(n == k, "[C17] one run per remaining label");
-        assert!(seen[0] == 10 * (i + 1), "[C17] a label is measured with the argument it names");
-        if k == 2 { assert!(seen[1] == 10 * (j + 1), "[C17] a label is measured with the argument it names"); }
+        assert!(n == k, "[C13][C17] one run per remaining label");
+        assert!(seen[0] == 10 * (i + 1), "[C13][C17] a label is measured with the argument it names (an unselected case is not run in its place)");
+        if k == 2 { assert!(seen[1] == 10 * (j + 1), "[C13][C17] a label is measured with the argument it names (an unselected case is not run in its place)"); }
         kani::cover!(k == 2 && i == 2 && j == 0);
     });
 }
